@@ -102,33 +102,35 @@ Proof. intros Hn Hi Hf Hs. unfold fixed_acc, frac_bits, log_add_ops in *. simpl.
   assert (Z.log2_up (n + b2z b) <= Z.log2_up (n' + b2z b)) by (apply Z.log2_up_le_mono; lia).
   rewrite Hs in *. lia. Qed.
 
-(* power-of-two operand converted to fixed point: every value strictly below the
-   top exponent is covered ... *)
-Theorem po2_to_qbits_covers_below_top t e :
+(* power-of-two operand converted to fixed point: EVERY value of the type, the top exponent included, is covered *)
+Theorem po2_to_qbits_covers t e :
   let mn := fst (get_exp t) in let mx := snd (get_exp t) in
-  - mn <= e < mx ->
+  - mn <= e <= mx ->
   let q := po2_qbits_converter t in
   frac_bits q = mn /\ code_ok q (2 ^ (e + mn)) /\ (q_sgn t = true -> code_ok q (- 2 ^ (e + mn))).
 Proof.
   intros mn mx He q.
   pose proof (get_exp_nonneg t) as [G1 G2]. fold mn in G1. fold mx in G2.
   assert (E : get_exp t = (mn, mx)) by (unfold mn, mx; destruct (get_exp t); reflexivity).
-  assert (F : frac_bits q = mn /\ mag_bits q = mn + mx /\ q_sgn q = q_sgn t).
+  assert (F : frac_bits q = mn /\ mag_bits q = mn + mx + 1 /\ q_sgn q = q_sgn t).
   { unfold q, po2_qbits_converter, po2_to_qbits. rewrite E. unfold frac_bits, mag_bits. simpl.
     repeat split; try reflexivity; lia. }
   destruct F as [F [M S]]. split; [exact F|].
   unfold code_ok, fix_lo, fix_hi. rewrite M, S.
-  assert (P : 2 * 2 ^ (e + mn) <= 2 ^ (mn + mx)).
+  assert (P : 2 * 2 ^ (e + mn) <= 2 ^ (mn + mx + 1)).
   { change 2 with (2 ^ 1) at 1. rewrite <- p2add by lia. apply Z.pow_le_mono_r; lia. }
   pose proof (p2ge1 (e + mn) ltac:(lia)).
   split; [destruct (q_sgn t); lia|]. intros ->. lia.
 Qed.
 
-(* ... but the top value 2^max_exp itself is not (int_bits = max_exp is one short) *)
-Theorem po2_to_qbits_top_value_refuted :
+(* before fix: 1f09dc0 the top value 2^max_exp itself was not covered (int_bits = max_exp is one short) *)
+Definition po2_qbits_converter_before_repair (t : qt) : qt :=
+  let '(b, i) := po2_to_qbits_before_repair t in set_sgn (set_int (set_bits mkQuantizedBits b) i) (q_sgn t).
+Theorem po2_to_qbits_top_value_before_repair_refuted :
   exists t, q_mode t = 1 /\
-    let q := po2_qbits_converter t in
-    mem_type t (rpow2 (snd (get_exp t))) = true /\ mem_type q (rpow2 (snd (get_exp t))) = false.
+    let q := po2_qbits_converter_before_repair t in
+    mem_type t (rpow2 (snd (get_exp t))) = true /\ mem_type q (rpow2 (snd (get_exp t))) = false /\
+    mem_type (po2_qbits_converter t) (rpow2 (snd (get_exp t))) = true.
 Proof. exists (QT 1 3 3 true false true None NPo2 None). vm_compute. repeat split. Qed.
 
 (* merge Add drops fractional bits when operands have different integer parts *)
